@@ -49,18 +49,19 @@ static bool isWs(const char c) { return c == ' ' || (c >= 9 && c <= 13); }
 static bool isDig(const char c) { return c >= '0' && c <= '9'; }
 
 // one decimal component as scanf("%d")/strtol() read it: [whitespace] [+|-] digits; value without any wrap-around
-struct Num { bool present; bool plain; __int128 value; const char *end; };
+struct Num { bool present; bool plain; __int128 value; const char *end; unsigned chars; };   // chars: sign + digits
 static Num readNum(const char *p)
 {
-    Num r = {false, true, 0, p};
+    Num r = {false, true, 0, p, 0};
     while (isWs(*p)) { ++p; r.plain = false; }
+    const char *start = p;
     bool neg = false;
     if (*p == '-' || *p == '+') { neg = *p == '-'; ++p; r.plain = false; }
     if (!isDig(*p)) return r;
     if (*p == '0' && isDig(p[1])) r.plain = false;           // leading zero
     __int128 v = 0;
     for (; isDig(*p); ++p) if (v < ((__int128)1 << 100)) v = v * 10 + (*p - '0');
-    r.present = true; r.value = neg ? -v : v; r.end = p;
+    r.present = true; r.value = neg ? -v : v; r.end = p; r.chars = (unsigned)(p - start);
     return r;
 }
 
@@ -70,6 +71,9 @@ static uint32_t v4of(const Ip::Address &a)
     a.getInAddr(ia);
     return ntohl(ia.s_addr);
 }
+
+static bool onlyLongLastComponent = false;   // set by c40_known_long_last_component only
+static bool onlyHugeProtocol = false;        // set by c40_known_huge_protocol only
 
 // ---------------------------------------------------------------- PORT / PASV: "h1,h2,h3,h4,p1,p2"
 static void checkIpPort(const char *text, const unsigned len, const bool force, const int sanity)
@@ -96,14 +100,14 @@ static void checkIpPort(const char *text, const unsigned len, const bool force, 
     const __int128 port = six ? c[4].value * 256 + c[5].value : 0;
     const bool portOk = inRange && port >= 1 && port <= 65535 && (!sanity || port >= 1024);
 
-#ifndef C40_NO_EXCLUSIONS
-    // KNOWN-FINDING candidate (1): with forceIp (FtpClient.cc passes the control connection's address when ftp_sanitycheck is
-    // on) h1..h4 are never looked at - "999,-1,77777,0,4,1" yields an address; the comment in ParseIpPort claims otherwise.
-    if (force && six) for (int i = 0; i < 4; ++i) vf_assume(c[i].value >= 0 && c[i].value <= 255);
-    // KNOWN-FINDING candidate (2): scanf("%d") on a number that does not fit an int: glibc stores the low 32 bits, so
-    // "10,0,0,1,4,4294967297" is read as p2 = 1 and "4294967306,0,0,1,4,1" as h1 = 10, and both yield an address.
-    if (six) for (int i = 0; i < 6; ++i) vf_assume(c[i].value >= -(__int128)2147483648LL && c[i].value <= 2147483647);
-#endif
+    // (The three classes reported earlier - forceIp skipping the h1..h4 range check, scanf("%d") wrapping huge numbers, EPRT
+    // ports 0 / missing / > 65535 - were repaired in Squid and are part of what is checked here.)
+    // KNOWN FINDING C40-pasv-long-last-component: ParseIpPort now reads every number with scanf("%4d"); a number written with
+    // more than 4 characters (sign + digits) ends the conversion early, which rejects the string for h1..p1 (the next
+    // character is not a comma) but NOT for the last component, after which nothing is checked: "10,0,0,1,4,02559" is read
+    // as p2 = 255 (2559 is out of range) and "10,0,0,1,4,+0255" as p2 = 25. This class is examined by its own entry
+    // (c40_known_long_last_component, listed in known_findings.json); every other entry excludes exactly this class.
+    vf_assume((six && c[5].chars > 4) == onlyLongLastComponent);
 
     char *s = exactCopy(text, len);
     Ip::Address addr;
@@ -231,13 +235,10 @@ static void checkProtoIpPort(const char *text, const unsigned len, const int san
         quad = quad && p == ipEnd;
     }
 
-#ifndef C40_NO_EXCLUSIONS
-    // KNOWN-FINDING candidate (3): ParseProtoIpPort only rejects port < 0: a missing port ("|1|1.2.3.4||") and port 0 are
-    // accepted as port 0 (unless ftp_sanitycheck), ports > 65535 are accepted and truncated to 16 bits by Ip::Address::port()
-    // ("|1|1.2.3.4|65616|" = port 80, also under ftp_sanitycheck), and strtol()'s long is first cut to int (2^32+80 = 80).
-    const Num rawPort = ipEnd ? readNum(ipEnd + 1) : port;
-    if (ipEnd) vf_assume(rawPort.present && rawPort.value != 0 && rawPort.value <= 65535);
-#endif
+    // KNOWN FINDING C40-eprt-huge-protocol: the protocol number is read with strtol() into an int, so a number that does not
+    // fit an int wraps: "|4294967297|10.0.0.1|8080|" is taken for protocol 1, "|8589934594|::1|8080|" for protocol 2. This
+    // class is examined by its own entry (c40_known_huge_protocol); every other entry excludes exactly this class.
+    vf_assume((proto.present && (proto.value > 2147483647 || proto.value < -(__int128)2147483648LL)) == onlyHugeProtocol);
 
     char *s = exactCopy(text, len);
     Ip::Address addr;
@@ -447,6 +448,20 @@ extern "C" void c40_list_short(void)
     text[len] = 0;
     const bool nlst = vf_concretize(vf_range(0, 1, "tried_nlst"));
     listLine(text, len, vf_concretize(vf_range(0, 1, "skip_whitespace")), nlst);
+}
+
+// ---------------------------------------------------------------- KNOWN FINDINGS (known_findings.json): strict assertions, class only
+extern "C" void c40_known_long_last_component(void)
+{
+    onlyLongLastComponent = true;
+    static const char *const t[] = {"10,0,0,1,4,025\x01\x01", "10,0,0,1,4,+02\x01\x01", "10,0,0,1,4,-00\x01\x01"};
+    ipPortFamily(t, sizeof(t) / sizeof(*t));
+}
+extern "C" void c40_known_huge_protocol(void)
+{
+    onlyHugeProtocol = true;
+    static const char *const t[] = {"|429496729\x01|10.0.0.1|8080|", "|858993459\x01|::1|8080|", "|-429496729\x01|10.0.0.1|8080|"};
+    eprtFamily(t, sizeof(t) / sizeof(*t), true);
 }
 
 // ---------------------------------------------------------------- the entries of the tiers: one per parser, case-split over the families above
